@@ -97,10 +97,12 @@ def verifierSrcArm (o : Nat) : String :=
   | none => verifierDefault
 
 /-- for each of the 256 opcode bytes the model's arm table (`Verifier.arm`) is the source's — the same checks for the same opcodes,
-    unknown opcodes refused — no opcode has two arms, and after the match the source runs `check_registers` and advances by one slot -/
+    unknown opcodes refused — no opcode has two arms, after the match the source runs `check_registers` and advances by one slot, and the function's head
+    (`check_prog_len`, the loop test, the instruction fetch, the store flag) and tail (the `insn_ptr != len / 8` test) have the shape `Verifier.check` / `checkLoop` model -/
 theorem Consts_verifier_arms :
     (∀ o : Fin 256, verifierTag (Verifier.arm o.val) = verifierSrcArm o.val) ∧
-    (verifierArms.map (·.1)).Nodup ∧ verifierAfterMatch = true ∧ verifierDefault = "reject" := by
+    (verifierArms.map (·.1)).Nodup ∧ verifierAfterMatch = true ∧ verifierDefault = "reject" ∧
+    verifierLoopHead = true ∧ verifierLoopTail = true := by
   decide +kernel
 
 end Rbpf
